@@ -654,6 +654,31 @@ class Fn:
             return T(('repeat', self.op_terms(rv['op'], point), rv['n']))
         return T(('unknown', 'rvalue:' + rv.get('dbg', k)[:40]))
 
+    def split_defs(self, op, point, depth=0):
+        """A4: the reaching definitions of an operand kept apart: list of (def block, def idx, terms).
+        Single moves/copies through temporaries are followed; constants and projected places yield one
+        entry located at `point`."""
+        if 'const' in op or depth > 12:
+            return [(point[0], point[1], self.op_terms(op, point))]
+        pl = op.get('move') or op.get('copy')
+        if pl is None or pl['p']:
+            return [(point[0], point[1], self.op_terms(op, point))]
+        evs, entry = self.reaching(pl['l'], point, (), True, whole_only=True)
+        out = []
+        if entry or not evs:
+            out.append((0, 0, self.local_terms(pl['l'], (0, 0))))
+        for e in evs:
+            if e.kind == 'assign' and e.data['k'] == 'assign' and e.data['rv']['k'] == 'use' and not e.path:
+                inner = self.split_defs(e.data['rv']['op'], (e.block, e.idx), depth + 1)
+                if len(inner) == 1:
+                    # a plain move: the value is unchanged, keep the latest location (most facts known)
+                    out.append((e.block, e.idx, inner[0][2]))
+                else:
+                    out.extend(inner)
+            else:
+                out.append((e.block, e.idx, self.event_terms(e)))
+        return out
+
     # ------------------------------------------------------------------ A3
     def _psucc(self, pt, via_edges=None):
         b, i = pt
